@@ -6,7 +6,7 @@ PROP = 'C08'
 LEAN_MODULES = ['XyzProofs.Props.C08']
 THEOREMS = ['Crop.c08_grow_inv', 'Crop.c08_failed_grow_unchanged', 'Crop.c08_fn_raises', 'Crop.c08_delete_inv',
             'Crop.c08_counts', 'Crop.c08_ready_iff', 'Crop.c08_missing_spec', 'Crop.c08_grow_missing',
-            'Crop.c08_resow_keeps_results', 'Crop.length_eq_iff_all']
+            'Crop.c08_resow_keeps_results', 'Crop.length_eq_iff_all', 'Crop.c08_check_bad', 'Crop.c08_check_bad_clean']
 ANCHORS = ['isReady', 'sowerGetsExtra', 'sowerFlush', 'nbFromBs', 'capNb', 'bsOfNb', 'remOfNb', 'bothOk']
 RULE = ("random histories (length <= 12) of {sow, re-sow with the same shape, grow one id, grow a subset, grow_missing, grow "
         "with a function that raises on chosen settings, delete a result file, corrupt a result + check_bad, a stranded temporary "
